@@ -15,6 +15,7 @@ import (
 	"strconv"
 	"strings"
 	"sync"
+	"sync/atomic"
 	"syscall"
 	"time"
 
@@ -72,6 +73,12 @@ func setRlimits(cpuSec uint64, asBytes uint64) {
 	}
 }
 
+func cpuMicros() int64 {
+	var ru syscall.Rusage
+	syscall.Getrusage(syscall.RUSAGE_SELF, &ru)
+	return (ru.Utime.Sec+ru.Stime.Sec)*1e6 + ru.Utime.Usec + ru.Stime.Usec
+}
+
 func cmdWorker(args []string) int {
 	fs := flag.NewFlagSet("worker", flag.ExitOnError)
 	prop := fs.String("prop", "", "")
@@ -86,6 +93,7 @@ func cmdWorker(args []string) int {
 	cpu := fs.Uint64("cpu", 0, "CPU seconds limit")
 	as := fs.Uint64("as", 0, "address space limit in bytes")
 	maxViol := fs.Int("maxviol", 10, "")
+	caseCPU := fs.Int("casecpu", 0, "CPU seconds allowed for a single case")
 	fs.Parse(args)
 	p, ok := core.Lookup(*prop)
 	if !ok {
@@ -102,7 +110,36 @@ func cmdWorker(args []string) int {
 	st := core.NewStats()
 	wo := &workerOut{Stats: st}
 	jbuf := make([]byte, 0, 64)
+	// per-case CPU watchdog: a case that consumes more than caseCPU seconds
+	// of CPU time (not wall clock, so machine load does not matter) does not
+	// make progress; the worker marks the journal and exits with status 3.
+	var caseStart atomic.Int64 // CPU microseconds at the start of the case
+	var caseIdx atomic.Int64
+	caseStart.Store(-1)
+	if *caseCPU > 0 {
+		go func() {
+			for {
+				time.Sleep(200 * time.Millisecond)
+				s0 := caseStart.Load()
+				if s0 < 0 {
+					continue
+				}
+				if cpuMicros()-s0 > int64(*caseCPU)*1e6 {
+					// re-check that we are still in the same case
+					if caseStart.Load() != s0 {
+						continue
+					}
+					hb := strconv.AppendInt([]byte("H "), caseIdx.Load(), 10)
+					hb = append(hb, "                    \n"...)
+					jf.WriteAt(hb[:24], 0)
+					os.Exit(3)
+				}
+			}
+		}()
+	}
 	for idx := *lo; idx < *hi; idx++ {
+		caseIdx.Store(idx)
+		caseStart.Store(cpuMicros())
 		// journal: case coordinates before the case runs ("S"), completion
 		// mark afterwards ("D"); one positional write each
 		jbuf = strconv.AppendInt(append(jbuf[:0], 'S', ' '), idx, 10)
@@ -111,6 +148,7 @@ func cmdWorker(args []string) int {
 		c := p.Gen(*kind, idx, *seed, *tier)
 		vs := runCase(p, &c, st)
 		st.Evaluations++
+		caseStart.Store(-1)
 		jbuf[0] = 'D'
 		jf.WriteAt(jbuf[:24], 0)
 		for _, v := range vs {
@@ -354,12 +392,28 @@ func cmdRun(args []string) int {
 			cpuLimit = v
 		}
 	}
+	caseCPU := 10
+	if *tier == "thorough" {
+		caseCPU = 60
+	}
+	if cl, ok := p.(interface{ CaseCPU(tier string) int }); ok {
+		caseCPU = cl.CaseCPU(*tier)
+	}
+	if s := os.Getenv("VERIF_CASE_CPU"); s != "" {
+		if v, err := strconv.Atoi(s); err == nil {
+			caseCPU = v
+		}
+	}
 	wallLimit := time.Duration(cpuLimit) * 4 * time.Second
 	asLimit := uint64(12 << 30)
 	if os.Getenv("VERIF_RACE") == "1" {
 		asLimit = 0 // the race detector reserves terabytes of address space
 	}
 
+	// after a few worker deaths or many violations the verdict is settled:
+	// the remaining shards are skipped (the evidence says so)
+	var stop atomic.Bool
+	var skipped, deaths atomic.Int64
 	sem := make(chan struct{}, *workers)
 	var wg sync.WaitGroup
 	for si, sh := range shards {
@@ -370,6 +424,10 @@ func cmdRun(args []string) int {
 			defer func() { <-sem }()
 			lo := sh.Lo
 			for attempt := 0; attempt < 4 && lo < sh.Hi; attempt++ {
+				if stop.Load() {
+					skipped.Add(1)
+					return
+				}
 				outf := filepath.Join(work, fmt.Sprintf("shard-%d-%d.json", si, attempt))
 				jf := filepath.Join(work, fmt.Sprintf("shard-%d-%d.journal", si, attempt))
 				errf := filepath.Join(work, fmt.Sprintf("shard-%d-%d.stderr", si, attempt))
@@ -377,7 +435,8 @@ func cmdRun(args []string) int {
 					"-seed", strconv.FormatInt(*seed, 10), "-kind", sh.Kind,
 					"-lo", strconv.FormatInt(lo, 10), "-hi", strconv.FormatInt(sh.Hi, 10),
 					"-out", outf, "-journal", jf, "-replaydir", work,
-					"-cpu", strconv.FormatUint(cpuLimit, 10), "-as", strconv.FormatUint(asLimit, 10))
+					"-cpu", strconv.FormatUint(cpuLimit, 10), "-as", strconv.FormatUint(asLimit, 10),
+					"-casecpu", strconv.Itoa(caseCPU))
 				ef, _ := os.Create(errf)
 				cmd.Stderr = ef
 				cmd.Stdout = ef
@@ -426,6 +485,9 @@ func cmdRun(args []string) int {
 					}
 					total.Merge(wo.Stats, 6)
 					viols = append(viols, wo.Violations...)
+					if len(viols) >= 40 {
+						stop.Store(true)
+					}
 					mu.Unlock()
 					os.Remove(jf)
 					if fi, err := os.Stat(errf); err == nil && fi.Size() == 0 {
@@ -447,8 +509,25 @@ func cmdRun(args []string) int {
 					mu.Unlock()
 					return
 				}
-				c := p.Gen(sh.Kind, idx, *seed, *tier)
+				var c core.Case
+				if func() (bad bool) {
+					defer func() {
+						if r := recover(); r != nil {
+							bad = true
+						}
+					}()
+					c = p.Gen(sh.Kind, idx, *seed, *tier)
+					return false
+				}() {
+					mu.Lock()
+					inconclusive = append(inconclusive, fmt.Sprintf("harness error: case generator panics for %s[%d] (see %s)", sh.Kind, idx, errf))
+					mu.Unlock()
+					return
+				}
 				class, msg := classifyDeath(cmd, werr, errf, cpuLimit)
+				if hung(jf) {
+					class, msg = "no-progress", fmt.Sprintf("the case consumed more than %d s of CPU time without returning (the other cases of this shard need milliseconds): a call does not terminate", caseCPU)
+				}
 				v := core.V(&c, class, "%s", msg)
 				v.Replay = writeReplay(work, &v)
 				mu.Lock()
@@ -456,6 +535,9 @@ func cmdRun(args []string) int {
 				total.Evaluations += idx - lo + 1
 				total.Inc("worker_deaths")
 				mu.Unlock()
+				if deaths.Add(1) >= 3 {
+					stop.Store(true)
+				}
 				lo = idx + 1
 			}
 		}(si, sh)
@@ -506,19 +588,22 @@ func cmdRun(args []string) int {
 	inconclusive = append(inconclusive, total.Inconclusive...)
 
 	cov := map[string]any{
-		"evaluations":         total.Evaluations,
-		"distinct_nontrivial": len(total.FP),
-		"rule":                p.Rule(),
-		"samples":             rawSamples(total.Samples),
-		"counters":            total.Counters,
-		"transition_table":    total.Transitions,
+		"evaluations":          total.Evaluations,
+		"distinct_nontrivial":  len(total.FP),
+		"rule":                 p.Rule(),
+		"samples":              rawSamples(total.Samples),
+		"counters":             total.Counters,
+		"transition_table":     total.Transitions,
 		"distinct_transitions": len(total.Transitions),
-		"not_observed":        notObserved,
-		"shards":              len(shards),
-		"exhaustive":          exhaustive,
+		"not_observed":         notObserved,
+		"shards":               len(shards),
+		"exhaustive":           exhaustive,
 	}
 	if len(inconclusive) > 0 {
 		cov["inconclusive"] = inconclusive
+	}
+	if n := skipped.Load(); n > 0 {
+		cov["shards_skipped_after_violations"] = n
 	}
 	if fc := os.Getenv("VERIF_FUNC_COVERAGE_FILE"); fc != "" {
 		cov["function_coverage_file"] = fc
@@ -599,6 +684,11 @@ func firstLines(s string, n int) string {
 		lines = append(lines[:n], "...")
 	}
 	return strings.Join(lines, "\n  ")
+}
+
+func hung(name string) bool {
+	b, err := os.ReadFile(name)
+	return err == nil && len(b) > 0 && b[0] == 'H'
 }
 
 func readJournal(name string) (idx int64, started bool) {
